@@ -44,6 +44,7 @@ FV(v) == [cls |-> v.cls, M |-> FromDec(v.m), e |-> v.e]
 (* parse, float                                                            *)
 (***************************************************************************)
 ValueProp(ev, f) == IF PFOpts(ev).lossy THEN "C19"
+                    ELSE IF HasSeparator(f) /\ ContainsByte(ev.in, f.digit_separator, 1) THEN "C13"   \* separators changed the value
                     ELSE IF Radix(f) = 10 /\ ExponentBase(f) = 10 THEN "C01" ELSE "C05"
 GrammarProp(ev, sc) == IF sc.hassep \/ (HasSeparator(FmtOf(ev)) /\ ContainsByte(ev.in, FmtOf(ev).digit_separator, 1)) THEN "C13" ELSE "C12"
 
@@ -266,10 +267,17 @@ WriteFloatContract(ev) ==
         r  == ev.res
         v  == ev.v
         specialOff == (v.cls = "nan" /\ o.nan = << >>) \/ (v.cls = "inf" /\ o.inf = << >>)
-    IN  IF ~ev.opts_valid THEN (IF r.k \in {"ok", "panic"} THEN << >> ELSE << << "C09", "write call did not return: " \o r.k >> >>)
+    IN  IF ~ev.opts_valid \/ OptionsPunctuationValidity(f, o.exp, o.point) # "valid"
+        THEN \* options the builder rejects, or punctuation that is a digit / sign / separator of this format: only "no fault"
+             (IF r.k \in {"ok", "panic"} THEN << >> ELSE << << "C09", "write call did not return: " \o r.k >> >>)
         ELSE IF specialOff THEN V(r.k = "panic", "C15", "special value written although its string is disabled")
         ELSE LET ab == WriteAbnormal(ev) IN
-        IF ab # << >> THEN ab
+        IF ab # << >> THEN
+            \* no output at all also breaks what the property of this writer says about "every finite float"
+            ab \o (IF v.cls \in {"finite", "zero"}
+                   THEN << << (IF Radix(f) = 10 THEN "C02" ELSE IF IsPow2Radix(Radix(f)) THEN "C06" ELSE "C07"),
+                              "no output for a finite float: " \o r.k >> >>
+                   ELSE << >>)
         ELSE IF r.k # "ok" THEN << >>
         ELSE V(AllAscii(r.out, 1), "C17", "non-ASCII byte written")
           \o (IF v.cls = "nan" THEN V(r.out = o.nan, "C15", "NaN not written as the configured string (or written with a sign)")
@@ -520,6 +528,17 @@ SepFreeSameAt(o, i) ==
            /\ a.wo = b.wo /\ a.opts = b.opts /\ a.fmt # b.fmt /\ FmtOf(a) = NoSep(FmtOf(b)) /\ ~Abnormal(a.res))
         => SameRes(a.res, b.res)
 
+(* C13: an input accepted with value v is accepted with the same value after deleting all separator bytes *)
+SepDeletionAt(o, i) ==
+    LET b == o[i] IN
+    (b.op = "parse" /\ ~b.partial /\ HasSeparator(FmtOf(b)) /\ ContainsByte(b.in, FmtOf(b).digit_separator, 1)
+       /\ b.res.k = "ok" /\ ConfigValidity(b, IsFloatTy(b.ty)) = "valid") =>
+    \A j \in Others(o, i) :
+        LET a == o[j] IN
+        (a.op = "parse" /\ ~a.partial /\ a.ty = b.ty /\ a.cfg = b.cfg /\ a.api = b.api /\ a.fmt = b.fmt
+           /\ a.wo = b.wo /\ a.opts = b.opts /\ a.in = StripSep(b.in, FmtOf(b).digit_separator, 1, << >>))
+        => a.res.k = "ok" /\ SameVal(a.res.v, b.res.v)
+
 RelationsAt(o, i) ==
        V(PartialAgreesAt(o, i),      "C11", "partial and complete parsers disagree")
     \o V(AdditiveAt(o, i),           "C16", "results differ between build configurations")
@@ -527,6 +546,7 @@ RelationsAt(o, i) ==
     \o V(RoundTripAt(o, i),          "C08", "written bytes do not parse back to the same value")
     \o V(LossyAgreesAt(o, i),        "C19", "lossy parsing changed more than the precision")
     \o V(SepFreeSameAt(o, i),        "C13", "separator-free input treated differently by the format and its separator-free counterpart")
+    \o V(SepDeletionAt(o, i),        "C13", "deleting the separators changes acceptance or the value")
     \o V(OptionsRelationAt(o, i),    "C14", "digits are not the default digits rounded to max_significant_digits")
     \o V(TrimRelationAt(o, i),       "C14", "trim_floats did not remove exactly the '.0' of an integral output")
 
